@@ -39,7 +39,20 @@ FB_AS_LVL = "FUNCTION_BLOCK LVL\n  VAR\n    x : INT;\n  END_VAR\n  x := 1;\nEND_
 VICTIM = "FUNCTION_BLOCK VICTIM\n  VAR\n    a : INT;\n  END_VAR\n  a := a + 1;\nEND_FUNCTION_BLOCK\n"
 WANDER = "FUNCTION_BLOCK WANDER\n  VAR\n    a : INT;\n  END_VAR\n  a := a + 2;\nEND_FUNCTION_BLOCK\n"
 
+# two configurations that both declare a global gk - one CONSTANT, one not - and a block with an external declaration
+# of it: a constant global requires the external declaration to be constant, whichever configuration is visited first
+PM = "PROGRAM PM\n  VAR\n    n : INT;\n  END_VAR\n  n := n + 1;\nEND_PROGRAM\n"
+CFA = ("CONFIGURATION CFA\n  VAR_GLOBAL CONSTANT\n    gk : INT := 1;\n  END_VAR\n  RESOURCE RA ON PLC\n    TASK TA (INTERVAL := T#100ms, PRIORITY := 1);\n"
+       "    PROGRAM IA WITH TA : PM;\n  END_RESOURCE\nEND_CONFIGURATION\n")
+CFB = ("CONFIGURATION CFB\n  VAR_GLOBAL\n    gk : INT := 2;\n  END_VAR\n  RESOURCE RB ON PLC\n    TASK TB (INTERVAL := T#100ms, PRIORITY := 1);\n"
+       "    PROGRAM IB WITH TB : PM;\n  END_RESOURCE\nEND_CONFIGURATION\n")
+PACKER = "FUNCTION_BLOCK PACKER\n  VAR_EXTERNAL CONSTANT\n    gk : INT;\n  END_VAR\n  VAR\n    a : INT;\n  END_VAR\n  a := gk;\nEND_FUNCTION_BLOCK\n"
+
 KINDS = {
+    "PM": ("PM", [], PM),
+    "GA": ("CFA", ["PM"], CFA),
+    "GB": ("CFB", ["PM"], CFB),
+    "XE": ("PACKER", [], PACKER),
     "V": ("VICTIM", [], VICTIM),
     "W": ("WANDER", [], WANDER),
     "R": ("RNG", [], SUBR),
@@ -70,6 +83,7 @@ KINDS = {
 
 # context-free rule violations (the documented 'Fails' shapes), per declaration kind: (text, code, lexeme the label must name)
 RULE_FAULT = {
+    "XE": (PACKER.replace("VAR_EXTERNAL CONSTANT", "VAR_EXTERNAL"), "P0018", "gk"),
     "VI": (VICT2.replace("  a := a + 4;\n", "  a := a + 4;\n  c(in1 := a);\n"), "P0021", "c(in1 := a)"),      # c is an INT here, an instance in FIL
     "XT": (XTIMER.replace("    a : INT;\n", "    a : INT;\n    t : TON;\n"), "P0029", "TON"),        # a standard function block that is not implemented
     "V": (VICTIM.replace("a := a + 1;", "c(in1 := a, out1 => a);"), "P0021", "c(in1 := a, out1 => a)"),      # the label covers the invocation; c is an instance of USER, not of VICTIM
@@ -107,7 +121,7 @@ DUP_BODY = {
 # the specification's name of a declaration where it differs from the spelled name: a data type that is spelled like a
 # function / program lives in another name space
 SPEC_NAME = {}
-SPACE = {"VI": "fb", "FI": "pou", "C": "fb", "U": "fb", "V": "fb", "W": "fb", "CX": "fb", "XT": "fb", "F": "pou", "M": "pou", "MF": "pou", "G": "pou"}     # everything else: "data"
+SPACE = {"PM": "pou", "GA": "pou", "GB": "pou", "XE": "fb", "VI": "fb", "FI": "pou", "C": "fb", "U": "fb", "V": "fb", "W": "fb", "CX": "fb", "XT": "fb", "F": "pou", "M": "pou", "MF": "pou", "G": "pou"}     # everything else: "data"
 
 
 def lex_fault(text):
@@ -175,6 +189,9 @@ def scenarios():
     sc["rule_XT"] = [("E", "none"), ("C", "none"), ("TTON", "none"), ("XT", "rule")]
     # an instance name of a FUNCTION must not make the invocation of a same-named INT variable elsewhere look right
     sc["rule_VI"] = [("C", "none"), ("FI", "none"), ("VI", "rule")]
+    # (not a context-free fault: it needs the configuration with the constant global - C06 only, not C03)
+    sc["ctxrule_GX"] = [("PM", "none"), ("GA", "none"), ("GB", "none"), ("XE", "rule")]
+    sc["validGX"] = [("PM", "none"), ("GA", "none"), ("GB", "none"), ("XE", "none")]
     sc["rule_TF"] = [("E", "none"), ("C", "none"), ("TFN", "none"), ("F", "rule")]
     sc["rule_TM"] = [("E", "none"), ("E2", "none"), ("C", "none"), ("U", "none"), ("TMAIN", "none"), ("M", "rule")]
     sc["cross_RX"] = [(x, "none") for x in ["E", "C", "RX"]]
